@@ -286,7 +286,7 @@ func (w *c28World) Actions(s *dsim.Sim, add func(dsim.Action)) {
 			w.edges[k] = nil
 			w.wantEdge[k] = id
 			w.pendingRe[k] = true
-			w.fw.Net.Defer("3op:reconnect:"+k, func() {
+			w.deferQuiet("3op:reconnect:"+k, func() {
 				w.pendingRe[k] = false
 				w.reconnect(k)
 			})
@@ -296,6 +296,9 @@ func (w *c28World) Actions(s *dsim.Sim, add func(dsim.Action)) {
 		nm := nm
 		if w.down[nm] {
 			continue
+		}
+		if s.ParkedCount() > 0 {
+			continue // (restarting calls into the router from the driver: see deferQuiet)
 		}
 		add(dsim.Action{Name: "5flt:restart:" + nm, Weight: 1, Fault: true, Fire: func() {
 			w.ops++
@@ -315,7 +318,7 @@ func (w *c28World) Actions(s *dsim.Sim, add func(dsim.Action)) {
 					w.wantEdge[k] = 0 // the restarted router gets fresh link tuples
 				}
 			}
-			w.fw.Net.Defer("3op:restarted:"+nm, func() {
+			w.deferQuiet("3op:restarted:"+nm, func() {
 				nd.Restart()
 				w.down[nm] = false
 				for _, ch := range w.chans {
@@ -334,6 +337,20 @@ func (w *c28World) Actions(s *dsim.Sim, add func(dsim.Action)) {
 			})
 		}})
 	}
+}
+
+// deferQuiet registers a one-shot harness action that calls into routers (AddPeerStream,
+// AddSubscription, Close take the router's lock). The driver must never wait for a lock
+// that a parked task may hold, so the action only takes effect at a step where nothing is
+// parked; otherwise it re-registers itself.
+func (w *c28World) deferQuiet(name string, f func()) {
+	w.fw.Net.Defer(name, func() {
+		if w.s.ParkedCount() > 0 {
+			w.deferQuiet(name, f)
+			return
+		}
+		f()
+	})
 }
 
 func (w *c28World) breakPar(k string) {
